@@ -1147,10 +1147,15 @@ class _Gauge(Base):
             for ax in sorted({0, a.rank - 1}):
                 yield ('gauge', i, ax, None)
                 yield ('gauge', i, ax, [1] * len(K.mods(a.ch)))
+                yield ('gauge', i, ax, [1] * len(K.mods(a.ch)), 'flip')  # new_qconj = -old qconj
+                yield ('gauge', i, ax, None, 'flip')
 
     def run(self, heap, p):
         a = heap[p[1]].arr
-        r = a.gauge_total_charge(p[2], p[3])
+        if len(p) > 4:
+            r = a.gauge_total_charge(p[2], p[3], new_qconj=-a.legs[p[2]].qconj)
+        else:
+            r = a.gauge_total_charge(p[2], p[3])
         return dict(kind='new', arr=r, share=p[1])
 
     def model(self, shs, p):
@@ -1160,7 +1165,9 @@ class _Gauge(Base):
         delta = newq - np.asarray(a.qtotal, dtype=np.int64)
         legs = list(a.legs)
         l = a.legs[p[2]]
-        legs[p[2]] = ShLeg(valid(a.ch, l.phys + delta), l.qconj, None, None)
+        # the physical charge (qconj * charge) of every index is shifted by the change of the total charge,
+        # whatever direction the new leg is given
+        legs[p[2]] = ShLeg(valid(a.ch, l.phys + delta), -l.qconj if len(p) > 4 else l.qconj, None, None)
         return Shadow(a.dense.copy(), legs, a.labels, newq.tolist(), a.ch)
 
 
@@ -1353,3 +1360,39 @@ class _Extend(Base):
         legs = list(a.legs)
         legs[k] = ShLeg(np.concatenate([a.legs[k].phys.reshape(a.legs[k].n, qn), np.zeros((extra, qn), np.int64)], axis=0), a.legs[k].qconj, None, None)
         return Shadow(np.pad(a.dense, pad), legs, a.labels, a.qtotal, a.ch)
+
+
+@op('charge_change')
+class _ChargeChange(Base):
+    """drop_charge / change_charge: results live in another ChargeInfo, so they do not join the heap; the dense
+    values must be unchanged, the result consistent, and (C03) the operand and its legs untouched."""
+
+    def instances(self, shs, tier):
+        for i, a in enumerate(shs):
+            qn = len(K.mods(a.ch))
+            if qn == 0:
+                continue
+            yield ('charge_change', i, 'drop', None)
+            yield ('charge_change', i, 'drop', 0)
+            yield ('charge_change', i, 'drop', 'q0')
+            if K.mods(a.ch)[0] in (1, 4):  # U(1) -> Z2, Z4 -> Z2 (the new group must be a quotient of the old one)
+                yield ('charge_change', i, 'change', 0)
+            if qn >= 2:
+                yield ('charge_change', i, 'drop', qn - 1)
+
+    def run(self, heap, p):
+        a = heap[p[1]].arr
+        if p[2] == 'drop':
+            r = a.drop_charge(p[3])
+        else:
+            r = a.change_charge(p[3], 2, 'changed')
+        inv = K.array_invariants(r)
+        if inv:
+            raise OpError('C02', 'charge_change:%s:invariant' % p[2], inv[0])
+        if r.get_leg_labels() != a.get_leg_labels():
+            raise OpError('C01', 'charge_change:%s:labels' % p[2], 'labels changed')
+        return dict(kind='scalar', val=complex(np.sum(r.to_ndarray() * (1 + np.arange(r.to_ndarray().size).reshape(r.shape)))))
+
+    def model(self, shs, p):
+        d = shs[p[1]].dense
+        return ('scalar', np.sum(d * (1 + np.arange(d.size).reshape(d.shape))))
